@@ -93,6 +93,26 @@ CHECKS = {
         technique="Lean 4 proof over a grid model of the metrics + differential correspondence",
         design="§4 C19",
     ),
+    "C18": dict(
+        text=("Proof (Lean 4): all ten conversion helpers of ibicus/utils/_utils.py are regenerated from /repo on every run with division PARTIAL (Except: 'div0' where the real code yields inf/NaN) "
+              "and proved equal to the model; round trips tasmin/tasmax <-> tasrange/tasskew (guard tasmax != tasmin, and exactly when it fails), agreement of single and paired functions, "
+              "tasmin <= tas <= tasmax for 0 <= skew <= 1 and range >= 0, pr/prsn/prsnratio round trips with the non-recoverable case prsn = 0 stated, lifted element-wise to lists (any shape). "
+              "Tier B compares the real functions with the driver on arrays of 0-5 dimensions including degenerate inputs."),
+        note="Trusted: Lean kernel + standard axioms; translator (partial division mode); numpy arithmetic is element-wise and x/0 is inf/NaN.",
+        technique="Lean 4 proof over kernels regenerated from source (partial division) + differential correspondence",
+        design="§4 C18",
+    ),
+    "C20": dict(
+        text=("Proof (Lean 4): the thirteen per-location formulas of marginal.py / trend.py / multivariate.py (four marginal biases, yearly and mean yearly exceedances, six trend / trend-bias formulas, chi) "
+              "are regenerated from /repo on every run with np.quantile, the metric and year() as parameters, and proved equal to the model; documented formulas from the right datasets, self-bias and "
+              "self-trend-bias 0 under the non-zero-denominator guard, chi(m,m) = 1, yearly split = per-year sums for any number of years >= 1 (single year = [total]), cell-wise evaluation on a grid, RMSE of a "
+              "map against itself 0. Tier B runs every public function on dyadic 3-d data of several grid shapes and 1-3 years and compares every location with the driver; the oracle checks grid-shape and "
+              "year-count independence bitwise."),
+        note=("Partial: how numpy spreads the per-location code over a grid (gridEval) is hand-written and validated by tier B; np.corrcoef / sqrt are not modelled (exact covariances from the driver); only overall/global "
+              "metrics here (time-scoped ones are C19). The conditional exceedance is pinned on the percent scale the code returns."),
+        technique="Lean 4 proof over per-location kernels regenerated from source + differential correspondence",
+        design="§4 C20",
+    ),
 }
 
 
